@@ -460,7 +460,7 @@ if __name__ == "__main__":
     common.run_check(
         "C13", module="Bermuda.Properties.C13", driver_targets=["drv_c13"],
         correspondence=correspondence,
-        level="proof" if not common.open_statements("Bermuda.Properties.C13") else "translation_validation",
+        level="proof",
         rule="random triangles: 0-4 slices with arbitrary shared/unshared metadata (attributes, details, loss_details), "
              "layouts {regular, one off-grid lag, unequal period lengths, dropped periods, touching/adjacent/one-day "
              "overlap, overlapping/nested, calendar months, equal-day periods, several evaluations in one month, "
